@@ -627,6 +627,21 @@ class SymFloat:
             return cur().concretize(z3.ToInt(self.t))
         return -cur().concretize(z3.ToInt(-self.t))
 
+    def __round__(self, ndigits=None):
+        """round() to an integer: half to even; the result is concretised by forking."""
+        if ndigits not in (None, 0):
+            raise ModelGap("round(x, ndigits) of a symbolic real")
+        if self.nan is not None and bool(mk_bool(self.nan)):
+            raise ValueError("cannot convert float NaN to integer")
+        e = cur()
+        fl = e.concretize(z3.ToInt(self.t))              # floor
+        frac2 = 2 * (self.t - fl)                         # in [0, 2)
+        if bool(mk_bool(frac2 < 1)):
+            return fl
+        if bool(mk_bool(frac2 > 1)):
+            return fl + 1
+        return fl if fl % 2 == 0 else fl + 1
+
     def __repr__(self):
         return "SymFloat(%s*%s%s)" % (self.k, self.r, '' if self.nan is None else ' nan?%s' % self.nan)
 
@@ -841,9 +856,14 @@ class Explorer:
         elif r == z3.unknown:
             asserts = self.solver.assertions()
             for k, to in enumerate((4000, 15000, self.query_timeout_ms, 3 * self.query_timeout_ms)):
-                s2 = z3.Solver()
+                if self.solver_factory is not None:
+                    if k < 2:
+                        continue
+                    s2 = self.solver_factory()
+                else:
+                    s2 = z3.Solver()
+                    s2.set('random_seed', 17 * k + 3)
                 s2.set('timeout', to)
-                s2.set('random_seed', 17 * k + 3)
                 s2.add(asserts)
                 self.n_retries += 1
                 r = s2.check()
@@ -1006,6 +1026,14 @@ class Explorer:
         self.internal_assumptions.add(note)
         self.assume(mk_bool(t))
 
+    def use_solver(self, factory, timeout_ms):
+        """Switch this path to another solver construction (e.g. a bit-blasting tactic for QF_FP)."""
+        self.solver_factory = factory
+        old = self.solver.assertions()
+        self.solver = factory()
+        self.solver.set('timeout', timeout_ms)
+        self.solver.add(old)
+
     def grid_values(self, extra=None):
         """Try to find a float-exact model of the path (and ``extra``): every real variable a
         multiple of 1/8 in [-512, 512] (thresholds etc. included).  Such witnesses replay on the
@@ -1112,6 +1140,7 @@ class Explorer:
                     self.inconclusive.append("violation cap hit; exploration stopped early")
                     break
                 prefix, model = self.worklist.pop(0) if split_at is not None else self.worklist.pop()
+                self.solver_factory = None
                 self.solver = z3.Solver()
                 self.solver.set('timeout', min(3000, self.query_timeout_ms))
                 self.solver.set('random_seed', self.seed % 1000)
@@ -1211,6 +1240,8 @@ def z3val(mv):
     if z3.is_false(mv):
         return False
     if z3.is_int_value(mv):
+        return mv.as_long()
+    if z3.is_bv_value(mv):
         return mv.as_long()
     if z3.is_rational_value(mv):
         fr = fractions.Fraction(mv.numerator_as_long(), mv.denominator_as_long())
